@@ -66,7 +66,12 @@ World5 == [name |-> "closed-asym-shared-places",
               S(3, 2, << <<0, 100>> >>, "svc", 0, 3),
               S(1, 1, << <<0, 100>> >>, "del", 1, 0),
               S(2, 1, << <<5, 40>> >>, "pick", 1, 0),
-              PD(3, 1, << <<0, 100>> >>, 2, 1, << <<0, 100>> >>, 1, 2) >>]
+              PD(3, 1, << <<0, 100>> >>, 2, 1, << <<0, 100>> >>, 1, 2),
+              \* a pair whose tasks list a usable window FIRST and a hopeless one last: the place that is applied has to be the one that was quoted
+              PD(2, 1, << <<0, 50>>, <<200, 300>> >>, 3, 2, << <<0, 55>>, <<400, 500>> >>, 1, 1),
+              \* a pair whose pickup can be made at two PLACES (location 2 or 3, both all day): which one is cheaper depends on the tour
+              [kind |-> "pd", p |-> [loc |-> 2, locs |-> <<2, 3>>, dur |-> 1, tws |-> << <<0, 100>>, <<0, 100>> >>],
+                              d |-> [loc |-> 3, dur |-> 1, tws |-> << <<0, 100>> >>], q |-> 1, value |-> 2] >>]
 FixedWorlds == <<World1, World2, World3, World4, World5>>
 \* seed dependent worlds produced by the driver (same record shape), appended to the fixed ones
 ExtraWorlds == IF "EXTRAWORLDS" \in DOMAIN IOEnv /\ IOEnv.EXTRAWORLDS # "" THEN ndJsonDeserialize(IOEnv.EXTRAWORLDS) ELSE <<>>
